@@ -103,6 +103,7 @@ def V_bytes(b): return ("bytes", list(b))
 def V_none(): return ("none",)
 def V_list(xs): return ("list", list(xs))
 def V_cinst(kind, raw): return ("cinst", CTYPE[kind][0], CTYPE[kind][1], list(raw))
+def V_carr(kind, n, raw): return ("carr", CTYPE[kind][0], CTYPE[kind][1], int(n), list(raw))
 def V_struct(cls, raw): return ("struct", cls, list(raw))
 def V_arr(cls, field, raw): return ("arr", cls, field, list(raw))
 def V_sarr(cls, field, raw): return ("sarr", cls, field, list(raw))
@@ -126,6 +127,8 @@ def val_json(v) -> dict:
         return dict(t="list", items=[val_json(x) for x in v[1]])
     if t == "cinst":
         return dict(t="cinst", ck=v[1], cw=v[2], raw=v[3])
+    if t == "carr":
+        return dict(t="carr", ck=v[1], cw=v[2], n=v[3], raw=v[4])
     if t == "struct":
         return dict(t="struct", cls=v[1], raw=v[2])
     if t in ("arr", "sarr"):
@@ -215,6 +218,8 @@ class Layouts:
             return "(PList [" + ";".join(self.val_coq(x) for x in v[1]) + "])"
         if t == "cinst":
             return f"(PCInst {v[1]} {v[2]} {zl(v[3])})"
+        if t == "carr":
+            return f"(PCArr {v[1]} {v[2]} {v[3]} {zl(v[4])})"
         if t == "struct":
             return f"(PStruct {v[1]} {zl(v[2])})"
         if t == "arr":
